@@ -12,6 +12,7 @@ mod c08;
 mod c09;
 mod c17;
 pub mod c10;
+pub mod zone;
 
 pub fn generate(suite: &str, tier: &str, seed: u64) -> Vec<String> {
     let mut rng = Rng::new(seed);
@@ -29,6 +30,8 @@ pub fn generate(suite: &str, tier: &str, seed: u64) -> Vec<String> {
         "c17" => c17::generate_c17(&mut rng, thorough),
         "c18" => c17::generate_c18(&mut rng, thorough),
         "c10" => c10::generate(&mut rng, thorough),
+        "c13" => zone::generate_c13(&mut rng, thorough),
+        "c14" => zone::generate_c14(&mut rng, thorough),
         _ => panic!("unknown suite {suite}"),
     }
 }
@@ -61,6 +64,9 @@ pub fn eval_more(t: &[&str]) -> String {
         return s;
     }
     if let Some(s) = c03::eval(t) {
+        return s;
+    }
+    if let Some(s) = zone::eval(t) {
         return s;
     }
     format!("?bad-op {}", t[0])
